@@ -146,6 +146,7 @@ def cases(tier, seed):
     out.append({"id": "algebra:identities", "kind": "ident", "tier": tier})
     out.append({"id": "algebra:unsupported-types", "kind": "unsup",
                 "tier": tier})
+    out.append({"id": "algebra:unsigned-constants", "kind": "unsigned"})
     out.append({"id": "algebra:numpy-scalar-left", "kind": "npleft",
                 "tier": tier})
     out.append({"id": "algebra:complex-constants", "kind": "cplxconst",
@@ -1478,6 +1479,37 @@ def _run_cplxconst(case, ck, info):
     return digest(*[a if isinstance(a, str) else a for a in acc])
 
 
+def _run_unsigned(case, ck, info):
+    """constants of unsigned integer type (pixel counts, indices): the
+    derived prior's guess is the operation applied to the base guess"""
+    acc = []
+    for nm, X in _subjects()[:4]:
+        g0 = X.guess
+        for tn, t in (("np.uint8", np.uint8), ("np.uint16", np.uint16),
+                      ("np.uint64", np.uint64)):
+            for on, op, want in (
+                    ("P - %s(1)" % tn, lambda: X - t(1), g0 - 1),
+                    ("P + %s(1)" % tn, lambda: X + t(1), g0 + 1),
+                    ("P * %s(2)" % tn, lambda: X * t(2), g0 * 2),
+                    ("P / %s(2)" % tn, lambda: X / t(2), g0 / 2),
+                    ("P - array([1, 2], %s)" % tn[3:],
+                     lambda: (X - np.array([1, 2], dtype=t))[1], g0 - 2)):
+                try:
+                    r = op()
+                    ck.trans += 1
+                    g = r.guess
+                except Exception as e:
+                    ck.true("derived-guess", False, "%s with P=%s raised "
+                            "%s: %s" % (on, nm, type(e).__name__,
+                                        str(e)[:80]))
+                    continue
+                ok = abs(g - want) <= 1e-12 * max(1.0, abs(want))
+                ck.true("derived-guess", ok, "%s with P=%s (guess %r) has "
+                        "guess %r, expected %r" % (on, nm, g0, g, want))
+                acc.append(repr(float(np.real(g))))
+    return digest(acc)
+
+
 def _run_npleft(case, ck, info):
     """a NumPy scalar as the LEFT operand: numpy dispatches to
     __array_ufunc__ instead of the reflected operator."""
@@ -2286,7 +2318,7 @@ def _run_ndarr(case, ck, info):
 RUN = {"uniform": _run_uniform, "gaussian": _run_gaussian,
        "bgauss": _run_bgauss, "bgnone": _run_bgnone, "bgrej": _run_bgrej,
        "ctor": _run_ctor, "complex": _run_complex, "ident": _run_ident,
-       "unsup": _run_unsup, "npleft": _run_npleft, "ndelem": _run_ndelem,
+       "unsup": _run_unsup, "npleft": _run_npleft, "unsigned": _run_unsigned, "ndelem": _run_ndelem,
        "cplxconst": _run_cplxconst,
        "ndarr": _run_ndarr, "tree1": _run_tree1, "tree2": _run_tree2,
        "tree2u": _run_tree2u, "tree3": _run_tree3}
